@@ -278,6 +278,11 @@ def den_case(h, absolute=False) -> np.ndarray:
     parameter replaced by its absolute value (the B of the rounding bound)."""
     k = h["holder"]
     f = np.abs if absolute else (lambda x: x)
+    memo = h.get("_Aabs" if absolute else "_A")
+    if memo is not None:
+        # (round 3) holders expanded inside a body from a compact description (large cases) carry the array they
+        # denote, computed once with NumPy by the expander; such a dict is never a stored case
+        return memo
     if k == "tensor":
         return f(gen.arr_F(h["shape"], h["data"]))
     if k == "sptensor":
@@ -304,6 +309,32 @@ def terms(h) -> int:
     if k == "ttensor":
         return ref.prod(h["cshape"]) * (len(h["shape"]) + 1)
     return sum(terms(p) for p in h["parts"])
+
+
+def components(h) -> int:
+    """number of parameter products a structured holder sums per entry (rank / cells of the core; 1 for dense, sparse)"""
+    k = h["holder"]
+    if k == "ktensor":
+        return h["rank"]
+    if k == "ttensor":
+        return ref.prod(h["cshape"])
+    if k == "sumtensor":
+        return sum(components(p) for p in h["parts"])
+    return 1
+
+
+def tight_count(*hs) -> int:
+    """Rounding-error count for norm (one holder) / innerprod (two) that follows the algorithms a tensor library may
+    reasonably use instead of multiplying all conceivable counts: Gram matrices or cross-Gram matrices of the factors
+    (sum of the mode sizes terms each), their products over the modes, a sum over all pairs of components
+    (prod of ``components``), or expanding one operand (``terms`` products per entry) and summing over all cells.  Every
+    one of these is bounded, relative to the same sum on absolute values, by the sum of those counts (histories that
+    normalise a Kruskal operand re-scale every parameter: three roundings each, already in ``terms``)."""
+    shape = hs[0]["shape"]
+    pairs = 1
+    for h in hs:
+        pairs *= components(h)
+    return pairs + ref.prod(shape) + 3 * sum(terms(h) for h in hs) + sum(shape) + 16
 
 
 def intvalued(*hs) -> bool:
